@@ -99,3 +99,73 @@ def require_evaluated(c, names):
     for n in names:
         if c.counters.get('contract:%s' % n, 0) == 0:
             c.flag_inconclusive('contract %s was never evaluated' % n)
+
+
+def frozen(module, attr, argnames):
+    """Caller-owned arguments stay the caller's: wraps module.attr (on top of a contract, if one is installed) so
+    that the named array/list arguments are snapshotted before every call and compared afterwards.  A difference is
+    recorded as '<attr>:argument-<name>-not-modified' (collect mode; the call itself is never altered)."""
+    import inspect
+    import numpy as np
+    key = (module, attr)
+    mod = importlib.import_module(module)
+    if key in _installed:
+        orig, cur, cname, n0 = _installed[key]
+    else:
+        orig = cur = getattr(mod, attr)
+        cname, n0 = None, 0
+    try:
+        sig = inspect.signature(orig)
+    except (TypeError, ValueError):
+        return cur
+    label = '%s.%s' % (module.split('.')[-1], attr)
+
+    def snap(v):
+        if isinstance(v, np.ndarray):
+            return ('a', np.array(v, copy=True), v.shape)
+        if isinstance(v, list):
+            try:
+                return ('l', list(v), len(v))
+            except Exception:
+                return None
+        return None
+
+    @functools.wraps(orig)
+    def guard(*a, **kw):
+        c = CURRENT['ctx']
+        snaps = {}
+        if c is not None:
+            try:
+                bound = sig.bind(*a, **kw)
+                for nm in argnames:
+                    if nm in bound.arguments:
+                        s = snap(bound.arguments[nm])
+                        if s is not None:
+                            snaps[nm] = (bound.arguments[nm], s)
+            except TypeError:
+                snaps = {}
+        out = cur(*a, **kw)
+        if c is not None and snaps:
+            for nm, (obj, (kind, before, shape)) in snaps.items():
+                try:
+                    if kind == 'a':
+                        try:
+                            eq = np.array_equal(obj, before, equal_nan=True)     # NaN samples are still the same samples
+                        except TypeError:
+                            eq = np.array_equal(obj, before)
+                        same = obj.shape == shape and bool(eq)
+                    else:
+                        same = len(obj) == shape and all(x is y or x == y or (x != x and y != y) for x, y in zip(obj, before))
+                except Exception:
+                    same = True
+                c.counters['frozen:%s(%s)' % (label, nm)] += 1
+                c.require('%s:argument-%s-not-modified' % (attr, nm), same, {'argument': nm, 'kind': kind}, {'fn': attr, 'clause': 'caller-arrays-unchanged'})
+        return out
+    for attr_ in ('__defaults__', '__kwdefaults__'):
+        try:
+            setattr(guard, attr_, getattr(orig, attr_))
+        except (AttributeError, TypeError):
+            pass
+    n = _patch_everywhere(cur, guard)
+    _installed[key] = (orig, guard, cname or 'frozen:%s' % label, n0 or n)
+    return guard
